@@ -22,6 +22,7 @@ import (
 
 	sdkmath "cosmossdk.io/math"
 	abci "github.com/cometbft/cometbft/abci/types"
+	"github.com/cosmos/cosmos-sdk/crypto/keys/ed25519"
 	sdk "github.com/cosmos/cosmos-sdk/types"
 	"github.com/cosmos/cosmos-sdk/types/query"
 	authtypes "github.com/cosmos/cosmos-sdk/x/auth/types"
@@ -49,9 +50,20 @@ import (
 // ------------------------------------------------------------------ twin environment
 
 type valInfo struct {
-	addr   sdk.ValAddress
-	op     string
-	bonded bool
+	addr sdk.ValAddress
+	op   string
+}
+
+// a validator created after genesis by a keyed account (native MsgCreateValidator on both chains): its operator can take
+// the self-delegation below min_self_delegation, upon which x/staking jails the validator at once - without slashing
+type createdVal struct {
+	name    string
+	op      *itutiltypes.TestAccount
+	addr    sdk.ValAddress
+	opStr   string
+	self    *big.Int
+	minSelf *big.Int
+	rate    string
 }
 
 type pathSpec struct {
@@ -70,6 +82,8 @@ type twin struct {
 	proxy   map[string]*itutiltypes.TestAccount
 	tracked []*itutiltypes.TestAccount // every account that can be a caller
 	vals    []valInfo                  // sorted by operator string (index = rank)
+	created []createdVal
+	valops  []*itutiltypes.TestAccount
 	chainID *big.Int
 	signed  []signedUse
 	// other denominations that reach validators' rewards pools (native MsgDepositValidatorRewardsPool by depositor):
@@ -133,6 +147,10 @@ func newTwin(t *testing.T) *twin {
 	}
 	tw.depositor = tw.A.DetAccount("depositor", 0)
 	tw.tracked = append(tw.tracked, tw.actors...)
+	for i := 0; i < 2; i++ { // operators of validators created after genesis (besides actor 2); never callers of the precompile
+		tw.valops = append(tw.valops, tw.A.DetAccount("valop", i))
+	}
+	tw.tracked = append(tw.tracked, tw.valops...)
 	for _, n := range []string{"pcall", "pdeleg", "pcc", "pdd", "pcd", "pmulti", "pmulti2"} {
 		tw.tracked = append(tw.tracked, tw.proxy[n])
 	}
@@ -174,14 +192,7 @@ func newTwin(t *testing.T) *twin {
 		c.SetCode(tw.proxy["pstatic"].GetEthAddress(), BuildProxy(OpSTATICCALL, tw.cpc))
 	}
 	// validators (identical on both chains)
-	vs, err := tw.A.App.StakingKeeper.GetAllValidators(tw.A.QueryCtx())
-	require.NoError(t, err)
-	for _, v := range vs {
-		bz, err := tw.A.App.StakingKeeper.ValidatorAddressCodec().StringToBytes(v.OperatorAddress)
-		require.NoError(t, err)
-		tw.vals = append(tw.vals, valInfo{addr: bz, op: v.OperatorAddress, bonded: v.IsBonded()})
-	}
-	sort.Slice(tw.vals, func(i, j int) bool { return tw.vals[i].op < tw.vals[j].op })
+	tw.loadVals()
 	tw.chainID = tw.A.EvmChainID()
 	// initial delegations (natively, both chains alike), chosen so that the first steps of a sequence meet
 	//   - callers with several delegations (undelegate / redelegate / withdraw have something to work on),
@@ -225,6 +236,7 @@ func newTwin(t *testing.T) *twin {
 		}
 		c.RunBlock(nil)
 	})
+	tw.createValidators(bonded)
 	tw.accrue()
 	// rewards in further denominations from the start: V0 (actor0, actor1, pmulti2) gets the one sorting before the bond
 	// denom, V2 (pcall, pdeleg, pmulti2) both, V1 (actor0, actor2; 10% commission) the one sorting after it
@@ -251,13 +263,164 @@ func (tw *twin) deposit(valOp string, coins sdk.Coins) bool {
 
 func (tw *twin) both(f func(c *Chain)) { f(tw.A); f(tw.B) }
 
+// loadVals (re)reads the validators that exist (chain A; the twins are identical whenever it is called), sorted by
+// operator string (index = rank)
+func (tw *twin) loadVals() {
+	tw.vals = nil
+	vs, err := tw.A.App.StakingKeeper.GetAllValidators(tw.A.QueryCtx())
+	require.NoError(tw.t, err)
+	for _, v := range vs {
+		bz, err := tw.A.App.StakingKeeper.ValidatorAddressCodec().StringToBytes(v.OperatorAddress)
+		require.NoError(tw.t, err)
+		tw.vals = append(tw.vals, valInfo{addr: bz, op: v.OperatorAddress})
+	}
+	sort.Slice(tw.vals, func(i, j int) bool { return tw.vals[i].op < tw.vals[j].op })
+}
+
+// valStatus is the status class of a validator in chain B's committed state: bonded / unbonding / unbonded, jailed or
+// not, without tokens, taking the whole reward as commission; "removed" = known once, gone now
+func (tw *twin) valStatus(addr []byte) string {
+	v, err := tw.B.App.StakingKeeper.GetValidator(tw.B.QueryCtx(), addr)
+	if err != nil {
+		return "removed"
+	}
+	s := strings.ToLower(strings.TrimPrefix(v.Status.String(), "BOND_STATUS_"))
+	if v.Jailed {
+		s = "jailed-" + s
+	}
+	if v.Tokens.IsZero() {
+		s += "-zero-tokens"
+	}
+	if v.Commission.Rate.Equal(sdkmath.LegacyOneDec()) {
+		s += "-max-commission"
+	}
+	return s
+}
+
+// bondedVals: the validators that are bonded (and not jailed) NOW
 func (tw *twin) bondedVals() (out []valInfo) {
+	q := tw.B.QueryCtx()
 	for _, v := range tw.vals {
-		if v.bonded {
+		if x, err := tw.B.App.StakingKeeper.GetValidator(q, v.addr); err == nil && x.IsBonded() && !x.Jailed {
 			out = append(out, v)
 		}
 	}
 	return
+}
+
+// specialVals: validators that exist and are not simply bonded: jailed, unbonding, unbonded, without tokens
+func (tw *twin) specialVals() (jailed, other []valInfo) {
+	q := tw.B.QueryCtx()
+	for _, v := range tw.vals {
+		x, err := tw.B.App.StakingKeeper.GetValidator(q, v.addr)
+		switch {
+		case err != nil:
+		case x.Jailed:
+			jailed = append(jailed, v)
+		case !x.IsBonded() || x.Tokens.IsZero():
+			other = append(other, v)
+		}
+	}
+	return
+}
+
+// createValidators: three validators created natively, on both chains alike, by keyed accounts:
+//   - "op-actor" by actor 2 (who is also a sender and direct caller of the precompile): self-bond 3, min_self_delegation 2,
+//     10% commission, plus 2 from the contract pcall: jailed when actor 2 - natively or through the precompile - takes more
+//     than 1 out;
+//   - "op-max" by valop 0: self-bond = min_self_delegation = 2, commission 100% (delegators earn nothing), plus 1 each from
+//     actor 1 and the contract pdd: the driver lets the operator un-delegate 1 unit early in every sequence: jailed, not
+//     slashed, unbonding and after the unbonding time unbonded, kept alive by the other delegators;
+//   - "op-empty" by valop 1: self-bond 1, min_self_delegation 1 unit, nobody else: the operator un-delegates all but one
+//     unit: a validator without voting power that leaves the bonded set without being jailed (unbonding, then unbonded);
+//     when the operator later takes the last unit out it is jailed with zero tokens and removed once unbonded, unless
+//     somebody delegates to it before.
+func (tw *twin) createValidators(genesisBonded []valInfo) {
+	t := tw.t
+	type extra struct {
+		who *itutiltypes.TestAccount
+		amt *big.Int
+	}
+	specs := []struct {
+		cv     createdVal
+		extras []extra
+	}{
+		{createdVal{name: "op-actor", op: tw.actors[2], self: e18(3), minSelf: e18(2), rate: "0.1"}, []extra{{tw.proxy["pcall"], e18(2)}}},
+		{createdVal{name: "op-max", op: tw.valops[0], self: e18(2), minSelf: e18(2), rate: "1.0"}, []extra{{tw.actors[1], e18(1)}, {tw.proxy["pdd"], e18(1)}}},
+		{createdVal{name: "op-empty", op: tw.valops[1], self: e18(1), minSelf: big.NewInt(1), rate: "0"}, nil},
+	}
+	for i := range specs {
+		cv := &specs[i].cv
+		cv.addr = sdk.ValAddress(cv.op.GetCosmosAddress())
+		cv.opStr = tw.valStr(tw.A, common.BytesToAddress(cv.addr))
+		tw.created = append(tw.created, *cv)
+	}
+	tw.both(func(c *Chain) {
+		ms := stakingkeeper.NewMsgServerImpl(c.App.StakingKeeper)
+		for i, sp := range specs {
+			pk := ed25519.GenPrivKeyFromSecret([]byte(fmt.Sprintf("verif/c11/consensus-key/%d", i))).PubKey()
+			rate := sdkmath.LegacyMustNewDecFromStr(sp.cv.rate)
+			msg, err := stakingtypes.NewMsgCreateValidator(sp.cv.opStr, pk, coin(tw.bond, sp.cv.self), stakingtypes.Description{Moniker: sp.cv.name},
+				stakingtypes.NewCommissionRates(rate, sdkmath.LegacyOneDec(), sdkmath.LegacyOneDec()), sdkmath.NewIntFromBigInt(sp.cv.minSelf))
+			require.NoError(t, err)
+			_, err = ms.CreateValidator(c.Ctx(), msg)
+			require.NoError(t, err)
+			for _, x := range sp.extras {
+				_, err := ms.Delegate(c.Ctx(), stakingtypes.NewMsgDelegate(x.who.GetCosmosAddress().String(), sp.cv.opStr, coin(tw.bond, x.amt)))
+				require.NoError(t, err)
+			}
+		}
+		c.RunBlock(nil)
+	})
+	tw.loadVals()
+}
+
+// operatorOf: the created validator (not jailed yet) whose operator acc is
+func (tw *twin) operatorOf(acc sdk.AccAddress) *createdVal {
+	for i := range tw.created {
+		cv := &tw.created[i]
+		if bytes.Equal(cv.op.GetCosmosAddress(), acc) {
+			if v, err := tw.B.App.StakingKeeper.GetValidator(tw.B.QueryCtx(), cv.addr); err == nil && !v.Jailed {
+				return cv
+			}
+		}
+	}
+	return nil
+}
+
+// belowMinSelf: an amount whose un-delegation by the operator leaves less than min_self_delegation (nil: no self-bond left)
+func (tw *twin) belowMinSelf(r *Rng, cv *createdVal) *big.Int {
+	q := tw.B.QueryCtx()
+	d, err := tw.B.App.StakingKeeper.GetDelegation(q, cv.op.GetCosmosAddress(), cv.addr)
+	if err != nil {
+		return nil
+	}
+	v, err := tw.B.App.StakingKeeper.GetValidator(q, cv.addr)
+	if err != nil {
+		return nil
+	}
+	self := v.TokensFromShares(d.Shares).TruncateInt().BigInt()
+	least := Badd(new(big.Int).Sub(self, cv.minSelf), 1) // the smallest amount that goes below the minimum
+	if least.Sign() <= 0 {
+		least = big.NewInt(1)
+	}
+	switch r.Intn(3) {
+	case 0:
+		return least
+	case 1:
+		return self
+	}
+	return new(big.Int).Add(least, new(big.Int).Rsh(new(big.Int).Sub(self, least), 1))
+}
+
+// nativeBoth runs one native message as a sponsored Cosmos transaction on both chains
+func (tw *twin) nativeBoth(a *itutiltypes.TestAccount, m sdk.Msg) bool {
+	var codes []uint32
+	tw.both(func(c *Chain) { codes = append(codes, c.C11SendCosmos(a, txGas, m).Code) })
+	if codes[0] != codes[1] {
+		tw.side.Hit("C11/staking/twin-harness-native-message-diverged", "the same native message had different outcomes on the twin chains", nil)
+	}
+	return codes[0] == 0
 }
 
 func (tw *twin) accrue() {
@@ -290,9 +453,15 @@ func (tw *twin) acct(c *Chain, ctx sdk.Context, a sdk.AccAddress) string {
 // unbonding entries that mature by then are paid out to the balance, matured redelegation entries are dropped
 // (x/staking EndBlocker -> DequeueAllMatureUBDQueue / DequeueAllMatureRedelegationQueue). at.IsZero(): as it is.
 func (tw *twin) acctAt(c *Chain, ctx sdk.Context, a sdk.AccAddress, at time.Time) string {
+	return tw.acctAtPlus(c, ctx, a, at, nil)
+}
+
+// acctAtPlus: acctAt with `extra` coins paid to the account
+func (tw *twin) acctAtPlus(c *Chain, ctx sdk.Context, a sdk.AccAddress, at time.Time, extra sdk.Coins) string {
 	mature := func(t time.Time) bool { return !at.IsZero() && !t.After(at) }
 	var sb strings.Builder
-	bal := c.App.BankKeeper.GetBalance(ctx, a, tw.bond).Amount
+	all := c.App.BankKeeper.GetAllBalances(ctx, a).Add(extra...)
+	bal := all.AmountOf(tw.bond)
 	var rest strings.Builder
 	dels, err := c.App.StakingKeeper.GetAllDelegatorDelegations(ctx, a)
 	require.NoError(tw.t, err)
@@ -330,7 +499,7 @@ func (tw *twin) acctAt(c *Chain, ctx sdk.Context, a sdk.AccAddress, at time.Time
 	}
 	// balances in the other denominations (rewards are paid out in every denomination of the validator's pool)
 	var others []string
-	for _, cn := range c.App.BankKeeper.GetAllBalances(ctx, a) {
+	for _, cn := range all {
 		if cn.Denom != tw.bond {
 			others = append(others, cn.String())
 		}
@@ -338,6 +507,62 @@ func (tw *twin) acctAt(c *Chain, ctx sdk.Context, a sdk.AccAddress, at time.Time
 	sort.Strings(others)
 	fmt.Fprintf(&sb, "bal=%s;other=%s;%s", bal, strings.Join(others, ","), rest.String())
 	return sb.String()
+}
+
+// partySnap: the accounts as they will be after the coming block (time c.Time) if nobody acts on them.  The one thing a
+// native staking message (and the end blocker) does to an account other than the message's delegator: when the last
+// shares leave a validator that is unbonded - or it is found without shares when its unbonding time is over - x/staking
+// removes the validator and x/distribution's AfterValidatorRemoved hook pays the accumulated commission (truncated, every
+// denomination) to the operator's account.  For the operator of a created validator `removed` holds the account as it
+// will be in that event.
+type partySnap struct {
+	plain, removed map[string]string
+}
+
+func (tw *twin) snapParties(c *Chain) partySnap {
+	q := c.QueryCtx()
+	sn := partySnap{map[string]string{}, map[string]string{}}
+	for _, a := range tw.tracked {
+		k := a.GetEthAddress().Hex()
+		sn.plain[k] = tw.acctAt(c, q, a.GetCosmosAddress(), c.Time)
+		for _, cv := range tw.created {
+			if cv.op != a {
+				continue
+			}
+			if _, err := c.App.StakingKeeper.GetValidator(q, cv.addr); err != nil {
+				continue
+			}
+			com, err := c.App.DistrKeeper.GetValidatorAccumulatedCommission(q, cv.addr)
+			if err != nil {
+				continue
+			}
+			pay, _ := com.Commission.TruncateDecimal()
+			sn.removed[k] = tw.acctAtPlus(c, q, a.GetCosmosAddress(), c.Time, pay)
+		}
+	}
+	return sn
+}
+
+// changed: the account is neither as predicted nor - its validator having been removed - as predicted plus commission
+func (tw *twin) changed(c *Chain, q sdk.Context, a *itutiltypes.TestAccount, sn partySnap) (string, bool) {
+	k := a.GetEthAddress().Hex()
+	now := tw.acct(c, q, a.GetCosmosAddress())
+	if now == sn.plain[k] {
+		return now, false
+	}
+	if alt, ok := sn.removed[k]; ok && now == alt {
+		for _, cv := range tw.created {
+			if cv.op == a {
+				if _, err := c.App.StakingKeeper.GetValidator(q, cv.addr); err != nil {
+					if tw.side != nil {
+						tw.side.Count("third-party:operator-paid-commission-of-removed-validator")
+					}
+					return now, false
+				}
+			}
+		}
+	}
+	return now, true
 }
 
 // global projection compared between the twins
@@ -795,17 +1020,32 @@ func (tw *twin) withdrawAllMsgs(dry sdk.Context, caller sdk.AccAddress) []sdk.Ms
 	return msgs
 }
 
+// pickVal: a validator of any status: 60% bonded, 28% one that is jailed / unbonding / unbonded / without tokens (half of
+// these a jailed one when there is any), else an address that is no validator
 func (tw *twin) pickVal(r *Rng) (common.Address, string) {
+	v, class := tw.pickVal0(r)
+	if tw.side != nil {
+		tw.side.Count("picked-validator:" + class)
+	}
+	return v, class
+}
+
+func (tw *twin) pickVal0(r *Rng) (common.Address, string) {
 	switch x := r.Intn(100); {
-	case x < 72:
-		b := tw.bondedVals()
-		return common.BytesToAddress(b[r.Intn(len(b))].addr), "bonded"
-	case x < 86:
-		for tries := 0; tries < 20; tries++ {
-			v := tw.vals[r.Intn(len(tw.vals))]
-			if !v.bonded {
-				return common.BytesToAddress(v.addr), "unbonded"
-			}
+	case x < 60:
+		if b := tw.bondedVals(); len(b) > 0 {
+			v := b[r.Intn(len(b))]
+			return common.BytesToAddress(v.addr), tw.valStatus(v.addr)
+		}
+	case x < 88:
+		jailed, other := tw.specialVals()
+		pool := append(append([]valInfo{}, jailed...), other...)
+		if len(jailed) > 0 && r.Chance(50) {
+			pool = jailed
+		}
+		if len(pool) > 0 {
+			v := pool[r.Intn(len(pool))]
+			return common.BytesToAddress(v.addr), tw.valStatus(v.addr)
 		}
 	}
 	return common.BigToAddress(r.BigBits(150)), "unknown"
@@ -817,7 +1057,11 @@ func (tw *twin) pickOwnVal(r *Rng, caller sdk.AccAddress) (common.Address, strin
 	if r.Chance(70) {
 		dels, err := tw.B.App.StakingKeeper.GetAllDelegatorDelegations(tw.B.QueryCtx(), caller)
 		if err == nil && len(dels) > 0 {
-			return common.BytesToAddress(tw.valBytes(tw.B, dels[r.Intn(len(dels))].ValidatorAddress)), "own"
+			bz := tw.valBytes(tw.B, dels[r.Intn(len(dels))].ValidatorAddress)
+			if tw.side != nil {
+				tw.side.Count("picked-validator:own:" + tw.valStatus(bz))
+			}
+			return common.BytesToAddress(bz), "own:" + tw.valStatus(bz)
 		}
 	}
 	return tw.pickVal(r)
@@ -877,8 +1121,48 @@ func (tw *twin) pickAmount(r *Rng, caller sdk.AccAddress, val common.Address) (*
 			return new(big.Int).Div(delTokens, big.NewInt(3)), "delegation/3"
 		}
 		return e18(2), "2e18"
+	case 9, 10:
+		return tw.pickWide(r, bal)
 	default:
 		return new(big.Int).Add(new(big.Int).Mod(r.BigBits(70), e18(9)), big.NewInt(1)), "random"
+	}
+}
+
+// pickWide: amounts from the whole uint256 range, around the word boundaries of narrower integer types (2^63 wei = 9.2
+// coins, 2^64 wei = 18.4 coins: well within the callers' balances) and near the balance (itself far above 2^64)
+func (tw *twin) pickWide(r *Rng, bal *big.Int) (*big.Int, string) {
+	small := func() *big.Int { return new(big.Int).Add(new(big.Int).Mod(r.BigBits(62), e18(3)), big.NewInt(1)) }
+	switch r.Intn(12) {
+	case 0:
+		return Badd(Pow2(63), -1), "2^63-1"
+	case 1:
+		return Pow2(63), "2^63"
+	case 2:
+		return new(big.Int).Add(Pow2(63), small()), "2^63+small"
+	case 3:
+		return Badd(Pow2(64), -1), "2^64-1"
+	case 4:
+		return Pow2(64), "2^64"
+	case 5:
+		return new(big.Int).Add(Pow2(64), small()), "2^64+small"
+	case 6: // k * 2^64 + anything below 2^64
+		return new(big.Int).Add(new(big.Int).Mul(big.NewInt(int64(1+r.Intn(3))), Pow2(64)), r.BigBits(64)), "k*2^64+low"
+	case 7:
+		return r.BigBits(66), "66-bit"
+	case 8:
+		return new(big.Int).Add(Pow2(128), small()), "2^128+small"
+	case 9:
+		if bal.Cmp(Pow2(64)) > 0 {
+			return new(big.Int).Sub(bal, small()), "balance-small"
+		}
+		return Pow2(128), "2^128"
+	case 10:
+		if bal.Cmp(Pow2(64)) > 0 { // the balance's bits above 2^64 only
+			return new(big.Int).Lsh(new(big.Int).Rsh(bal, 64), 64), "balance-high-bits"
+		}
+		return Pow2(128), "2^128"
+	default:
+		return new(big.Int).Add(new(big.Int).Lsh(r.BigBits(190), 64), small()), "high-bits+small"
 	}
 }
 
@@ -929,6 +1213,12 @@ func (tw *twin) genOpKind(r *Rng, caller *itutiltypes.TestAccount, kind int) cpc
 	case kind < 32:
 		v, vc := tw.pickOwnVal(r, meAcc)
 		a, ac := tw.pickPart(r, meAcc, v)
+		if cv := tw.operatorOf(meAcc); cv != nil && r.Chance(70) {
+			// the operator of a validator takes its self-delegation below min_self_delegation: jailed, not slashed
+			if x := tw.belowMinSelf(r, cv); x != nil {
+				v, vc, a, ac = common.BytesToAddress(cv.addr), "own-validator:"+tw.valStatus(cv.addr), x, "below-min-self-delegation"
+			}
+		}
 		return cpcOp{method: "undelegate", class: vc + "/" + ac, payload: tw.pack("undelegate", v, a),
 			coqCall: fmt.Sprintf("CUndelegate %s %s", zOf(v.Bytes()), CqZ(a)),
 			translate: func(dry sdk.Context, c sdk.AccAddress) ([]scriptEntry, bool) {
@@ -1075,12 +1365,25 @@ func (tw *twin) genSignedStaking(r *Rng, caller *itutiltypes.TestAccount) cpcOp 
 		a, ac = tw.pickPart(r, meAcc, old)
 		msg.OldValidator, msg.Amount = tw.valStr(B, old), a
 	}
+	if msg.Action == cpcabi.StakingMessageActionDelegate && r.Chance(40) {
+		// the signed message's uint256 in all its width (what is hashed must be what is executed)
+		bal := B.App.BankKeeper.GetBalance(B.QueryCtx(), meAcc, tw.bond).Amount.BigInt()
+		a, ac = tw.pickWide(r, bal)
+		msg.Amount = a
+		if b := tw.bondedVals(); len(b) > 0 && r.Chance(70) {
+			v, vc = common.BytesToAddress(b[r.Intn(len(b))].addr), "bonded"
+			msg.Validator = tw.valStr(B, v)
+		}
+	}
 	signer, chain, class := caller, tw.chainID, "valid"
+	altered := false
 	switch x := r.Intn(100); {
-	case x < 45:
-	case x < 55:
+	case x < 34:
+	case x < 52:
+		altered, class = true, "altered-after-signing"
+	case x < 59:
 		signer, class = tw.otherKeyed(r, me), "wrong-signer"
-	case x < 65:
+	case x < 66:
 		chain, class = Badd(tw.chainID, 1), "wrong-chain-id"
 	case x < 77: // a third party's message, correctly signed by that third party
 		signer, class = tw.thirdParty(r, me), "delegator-not-caller"
@@ -1096,7 +1399,7 @@ func (tw *twin) genSignedStaking(r *Rng, caller *itutiltypes.TestAccount) cpcOp 
 	default:
 		msg.Validator, class = "evmvaloper1xyz", "bad-validator"
 	}
-	if class != "valid" && class != "bad-validator" && r.Chance(60) {
+	if class != "valid" && class != "bad-validator" && !altered && r.Chance(60) {
 		// a forged or malformed message that would otherwise be perfectly executable: if it is accepted, it shows
 		b := tw.bondedVals()
 		v, vc = common.BytesToAddress(b[r.Intn(len(b))].addr), "bonded"
@@ -1109,7 +1412,55 @@ func (tw *twin) genSignedStaking(r *Rng, caller *itutiltypes.TestAccount) cpcOp 
 			msg.OldValidator = "-"
 		}
 	}
-	rr, ss, vv, err := C11SignTypedData(signer, tw.stakingTD(msg, chain))
+	signedMsg := msg
+	if altered {
+		// the delegator really signs one message, another one - equal to it but for one member - is submitted with that
+		// signature; mostly the amount: plus k * 2^64, plus 2^128 / 2^192, one high bit flipped, low bits changed - every
+		// bit of the uint256 must be under the signature.  The submitted message is executable (a Delegate the balance covers).
+		bal := B.App.BankKeeper.GetBalance(B.QueryCtx(), meAcc, tw.bond).Amount.BigInt()
+		b := tw.bondedVals()
+		v, vc = common.BytesToAddress(b[r.Intn(len(b))].addr), "bonded"
+		msg.Action, msg.Validator, msg.OldValidator = cpcabi.StakingMessageActionDelegate, tw.valStr(B, v), "-"
+		signedMsg = msg
+		base := new(big.Int).Add(new(big.Int).Mod(r.BigBits(70), e18(9)), big.NewInt(1)) // below 2^63
+		if r.Chance(30) {
+			base = new(big.Int).Add(new(big.Int).Mod(r.BigBits(70), e18(40)), big.NewInt(1)) // any low 64 bits, some above 2^64
+		}
+		signedMsg.Amount = base
+		sub := new(big.Int).Set(base)
+		switch x := r.Intn(10); {
+		case x < 5:
+			k := int64(1 + r.Intn(4))
+			sub.Add(sub, new(big.Int).Mul(big.NewInt(k), Pow2(64)))
+			ac = "signed-amount+k*2^64"
+		case x < 6:
+			sub.Add(sub, Pow2(uint([]int{128, 192, 255}[r.Intn(3)])))
+			ac = "signed-amount+2^128.."
+		case x < 7:
+			bit := uint(64 + r.Intn(6))
+			sub.Xor(sub, Pow2(bit))
+			ac = "signed-amount-high-bit-flipped"
+		case x < 8:
+			sub.Xor(sub, Pow2(uint(r.Intn(63))))
+			ac = "signed-amount-low-bit-flipped"
+		case x < 9:
+			sub.Add(sub, big.NewInt(1))
+			ac = "signed-amount+1"
+		default: // another validator than the one signed for
+			if len(b) > 1 {
+				for msg.Validator == signedMsg.Validator {
+					msg.Validator = b[r.Intn(len(b))].op
+				}
+			}
+			ac = "signed-for-another-validator"
+		}
+		if sub.Sign() <= 0 || sub.Cmp(bal) > 0 && ac == "signed-amount+k*2^64" {
+			sub = new(big.Int).Add(base, Pow2(64))
+		}
+		msg.Amount = sub
+		a = sub
+	}
+	rr, ss, vv, err := C11SignTypedData(signer, tw.stakingTD(signedMsg, chain))
 	require.NoError(tw.t, err)
 	if class == "garbage-signature" {
 		copy(rr[:], r.BigBits(250).FillBytes(make([]byte, 32)))
@@ -1270,6 +1621,34 @@ func TestDriverStaking(t *testing.T) {
 			// then emptied is removed together with the shared consensus-address index entry, after which no block
 			// proposer can be resolved: point the index back (both chains alike)
 			tw.both(func(c *Chain) { c.RepairConsAddrIndex() })
+			// validator status variety, the same in every sequence (native, both chains): the operator of "op-max" goes below
+			// its min_self_delegation (jailed without slashing; unbonding, later unbonded, alive through its other delegators),
+			// the operator of "op-empty" takes everything out (a validator without tokens, out of the bonded set, not jailed),
+			// the operator of "op-actor" at the latest in the middle of the sequence, if it has not done so through the precompile
+			forced := -1
+			switch {
+			case step == 2:
+				forced = 1
+			case step == 5:
+				forced = 2
+			case step == steps/2:
+				forced = 0
+			}
+			if forced >= 0 {
+				cv := &tw.created[forced]
+				if tw.operatorOf(cv.op.GetCosmosAddress()) != nil {
+					if x := tw.belowMinSelf(r, cv); x != nil {
+						if forced == 2 { // all but one unit: no voting power left, yet not below the minimum of 1: unbonding, NOT jailed
+							x = Badd(cv.self, -1)
+						}
+						ok := tw.nativeBoth(cv.op, &stakingtypes.MsgUndelegate{DelegatorAddress: cv.op.GetCosmosAddress().String(), ValidatorAddress: cv.opStr, Amount: coin(tw.bond, x)})
+						side.Count(fmt.Sprintf("status:operator-of-%s-undelegates-below-min-self-delegation:ok=%v:now-%s", cv.name, ok, tw.valStatus(cv.addr)))
+					}
+				}
+			}
+			for _, cv := range tw.created {
+				side.Count("status-at-step:" + cv.name + ":" + tw.valStatus(cv.addr))
+			}
 			switch {
 			case k < 10:
 				tw.accrue()
@@ -1304,6 +1683,11 @@ func TestDriverStaking(t *testing.T) {
 				if amt.Sign() == 0 {
 					amt = big.NewInt(1)
 				}
+				if cv := tw.operatorOf(a.GetCosmosAddress()); cv != nil && nk == 1 && r.Chance(30) {
+					if x := tw.belowMinSelf(r, cv); x != nil {
+						v, amt = common.BytesToAddress(cv.addr), x
+					}
+				}
 				var m sdk.Msg
 				switch nk {
 				case 0:
@@ -1317,11 +1701,7 @@ func TestDriverStaking(t *testing.T) {
 					m = disttypes.NewMsgWithdrawDelegatorReward(a.GetCosmosAddress().String(), tw.valStr(tw.B, v))
 				}
 				var codes []uint32
-				preB := map[string]string{}
-				qb := tw.B.QueryCtx()
-				for _, x := range tw.tracked {
-					preB[x.GetEthAddress().Hex()] = tw.acctAt(tw.B, qb, x.GetCosmosAddress(), tw.B.Time)
-				}
+				preB := tw.snapParties(tw.B)
 				tw.both(func(c *Chain) {
 					res := c.C11SendCosmos(a, txGas, m)
 					codes = append(codes, res.Code)
@@ -1335,9 +1715,9 @@ func TestDriverStaking(t *testing.T) {
 				})
 				// hypothesis of C11_third_parties_untouched: a native message changes balance / delegations / entries of
 				// nobody but its own delegator
-				qb = tw.B.QueryCtx()
+				qb := tw.B.QueryCtx()
 				for _, x := range tw.tracked {
-					if x != a && tw.acct(tw.B, qb, x.GetCosmosAddress()) != preB[x.GetEthAddress().Hex()] {
+					if _, ch := tw.changed(tw.B, qb, x, preB); x != a && ch {
 						side.Hit("C11/staking/native-hypothesis-violated/message-changed-third-party", fmt.Sprintf("native %T by %s changed the account state of %s", m, a.GetEthAddress().Hex(), x.GetEthAddress().Hex()), nil)
 					}
 				}
@@ -1417,6 +1797,10 @@ func (tw *twin) cpcStep(r *Rng, side *Sidecar, cases *CasesFile, idx *int, seq, 
 		} else {
 			op.class = "replay-by-other"
 		}
+	} else if tw.operatorOf(caller.GetCosmosAddress()) != nil && r.Chance(35) {
+		// the caller operates a validator that is not jailed yet: mostly an undelegation that takes its self-delegation below
+		// min_self_delegation - the precompile call jails the validator on A, the native message on B
+		op = tw.genOpKind(r, caller, 20)
 	} else {
 		op = tw.genOp(r, caller)
 	}
@@ -1442,11 +1826,7 @@ func (tw *twin) cpcStep(r *Rng, side *Sidecar, cases *CasesFile, idx *int, seq, 
 	script, expOK := op.translate(dry, callerAcc)
 
 	// chain A: the precompile call; third parties' state before
-	qA := tw.A.QueryCtx()
-	preA := map[string]string{} // third parties: as they will be after this block's end blocker if nobody touches them
-	for _, a := range tw.tracked {
-		preA[a.GetEthAddress().Hex()] = tw.acctAt(tw.A, qA, a.GetCosmosAddress(), tw.A.Time)
-	}
+	preA := tw.snapParties(tw.A) // third parties: as they will be after this block's end blocker if nobody touches them
 	res := tw.A.C11SendEth(sender, to, op.payload, txGas)
 	if res.Code != 0 {
 		// the whole transaction died (no receipt): legitimate only where the native message server panics as well
@@ -1528,13 +1908,13 @@ func (tw *twin) cpcStep(r *Rng, side *Sidecar, cases *CasesFile, idx *int, seq, 
 			fmt.Sprintf("after %s via %s (precompile ok=%v, native ok=%v) the twin chains differ in %v", op.method, p.name, obsOK, expOK, d.Diff), d)
 	}
 	// (b) only the immediate caller's own stake
-	qA = tw.A.QueryCtx()
+	qA := tw.A.QueryCtx()
 	for _, a := range tw.tracked {
 		if a == caller {
 			continue
 		}
-		if now := tw.acct(tw.A, qA, a.GetCosmosAddress()); now != preA[a.GetEthAddress().Hex()] {
-			side.Hit("C11/staking/third-party-state-changed/"+op.method, fmt.Sprintf("balance / delegations / entries of %s changed although the caller was %s: before %s, after %s", a.GetEthAddress().Hex(), caller.GetEthAddress().Hex(), preA[a.GetEthAddress().Hex()], now), d)
+		if now, ch := tw.changed(tw.A, qA, a, preA); ch {
+			side.Hit("C11/staking/third-party-state-changed/"+op.method, fmt.Sprintf("balance / delegations / entries of %s changed although the caller was %s: before %s, after %s", a.GetEthAddress().Hex(), caller.GetEthAddress().Hex(), preA.plain[a.GetEthAddress().Hex()], now), d)
 		}
 	}
 	for _, l := range logs {
